@@ -24,6 +24,8 @@ pub struct Rebuilt {
     /// type references cut off by the depth of the query's `ofType` nesting
     pub truncated_refs: u64,
     pub directives: Vec<String>,
+    /// argument names of every listed directive
+    pub directive_args: BTreeMap<String, Vec<String>>,
 }
 
 const NAMED_KINDS: [&str; 6] = ["SCALAR", "OBJECT", "INTERFACE", "UNION", "ENUM", "INPUT_OBJECT"];
@@ -450,7 +452,8 @@ pub fn rebuild(schema: &J, legacy: bool) -> Rebuilt {
                         }
                     }
                 }
-                let _ = cx.input_values(&p, "args", &d["args"], legacy);
+                let args = cx.input_values(&p, "args", &d["args"], legacy);
+                cx.out.directive_args.insert(n.to_string(), args.into_iter().map(|a| a.name).collect());
             }
         }
     }
